@@ -105,6 +105,11 @@ func genArchiveTree(rt *rapid.T) Tree {
 func genWideArchiveTree(rt *rapid.T) Tree {
 	t := Tree{"0slow.bin": &Entry{Kind: KFile, Data: Bytes(rapid.Uint64().Draw(rt, "slowseed"), rapid.SampledFrom([]int{40 * KiB, 200 * KiB}).Draw(rt, "slowsize"))}}
 	n := rapid.SampledFrom([]int{1030, 1100, 1500, 2100}).Draw(rt, "nwide")
+	if os.Getenv("VERIF_C19_HUGE") == "1" {
+		// a part of its own (few runs, they are long): an archive with more entries than any
+		// fixed-size table of 8192 slots holds
+		n = 8400
+	}
 	for i := 0; i < n; i++ {
 		var d []byte
 		if i%16 == 3 {
@@ -155,7 +160,7 @@ func TestC19(t *testing.T) {
 	Ev.Component("archive ReaderAt, consumer callbacks, worker schedule, process crash (snapshot of directory + resume file at a quiescent point, in-progress files and resume file torn), restart", "simulated")
 	Ev.Assume("crash snapshots are taken when no I/O is in flight (scheduler quiescence); the resume file may additionally be empty or truncated because os.WriteFile is truncate-then-write")
 	Prop(t, "C19", func(rt *rapid.T) {
-		wide := rapid.IntRange(0, 14).Draw(rt, "wide") == 0
+		wide := rapid.IntRange(0, 14).Draw(rt, "wide") == 0 || os.Getenv("VERIF_C19_HUGE") == "1"
 		var tree Tree
 		if wide {
 			tree = genWideArchiveTree(rt)
@@ -270,6 +275,12 @@ func TestC19(t *testing.T) {
 		if wide {
 			conc = rapid.SampledFrom([]int{2, 3, 4, 8}).Draw(rt, "wideconcurrency")
 			stallUntil = rapid.IntRange(0, len(kinds)-1).Draw(rt, "stalluntil")
+			if len(kinds) > 8000 {
+				// (an archive this long is here for what happens when thousands of entries are done
+				// while an early one is still on its way)
+				stallUntil = len(kinds) - 1 - rapid.IntRange(0, 100).Draw(rt, "stalluntillate")
+				Ev.Probe("more_than_8192_entries_done_behind_a_stalled_one")
+			}
 			crashAt = -1
 			if rapid.IntRange(0, 3).Draw(rt, "widecrash") != 0 {
 				crashDone = rapid.IntRange(0, stallUntil).Draw(rt, "crashdone")
@@ -296,7 +307,7 @@ func TestC19(t *testing.T) {
 		}
 		var cr *crash
 		inprog := map[string]bool{}
-		s := &Sched{Spec: spec, MaxSteps: 400000}
+		s := &Sched{Spec: spec, MaxSteps: 1500000}
 		cons := &state.Consumer{OnMessage: func(lvl, msg string) {
 			if strings.HasPrefix(msg, "extract ") {
 				s.mu.Lock()
@@ -344,7 +355,7 @@ func TestC19(t *testing.T) {
 						s.mu.Unlock()
 						cr = c
 					}
-					if done >= stallUntil || stalls > 60000 {
+					if done >= stallUntil || stalls > 300000 {
 						return
 					}
 					stalls++
